@@ -353,6 +353,26 @@ impl<'a, 'tcx> Cx<'a, 'tcx> {
         }
         let ga: Vec<J> = args.iter().map(|a| J::S(format!("{}", a))).collect();
         o.push(("ga", J::A(ga)));
+        // <T as Into<U>>::into is core's blanket impl calling <U as From<T>>::from:
+        // resolve that callee as well so the analysis can follow it.
+        if tcx.def_path_str(def_id) == "core::convert::Into::into" && args.len() == 2 {
+            if let Some(from_trait) = tcx.lang_items().from_trait() {
+                if let Some(from_fn) = tcx
+                    .associated_items(from_trait)
+                    .in_definition_order()
+                    .find(|i| i.name().as_str() == "from")
+                {
+                    let t = args[0];
+                    let u = args[1];
+                    let fargs = tcx.mk_args(&[u, t]);
+                    if let Ok(Some(inst)) = Instance::try_resolve(tcx, self.env, from_fn.def_id, fargs) {
+                        let rid = inst.def_id();
+                        o.push(("into_from", J::S(tcx.def_path_str(rid))));
+                        o.push(("into_from_local", J::B(rid.is_local())));
+                    }
+                }
+            }
+        }
         J::obj(o)
     }
 
